@@ -1,0 +1,18 @@
+//go:build verif
+
+package datafile
+
+// Accessors for the verification harness (build tag verif only).
+
+const (
+	VerifBlockSize       = blockSize
+	VerifChunkHeaderSize = chunkHeaderSize
+)
+
+// VerifLast returns the writer state (last block id, bytes used in it).
+func (df *DataFile) VerifLast() (uint32, uint32) {
+	return df.lastBlockID, df.lastBlockSize
+}
+
+// VerifClosed reports the closed flag.
+func (df *DataFile) VerifClosed() bool { return df.closed }
